@@ -137,6 +137,16 @@ def body(ctx):
                               stat_size=rng.choice([None, None, 0, 1, size + 1, 0xFFFFFFFF]))])          # what STAT says need not be what RECV delivers (procfs; a growing file)
         mode = ('sync', 'async')[j % 2]
         runs.append((mode, spec) + run_with_inert(spec, mode))
+    # a transfer that takes longer than read_timeout_s as a whole although every packet arrives promptly, while another stream (a
+    # streaming generator the caller keeps open) sends a packet in the middle of it
+    for k3, (size, tick, rt) in enumerate([(200000, 0.05, 1.0), (70000, 0.2, 0.5), (300000, 0.01, 0.3)]):
+        for cb in (None, 'ok'):
+            spec = dict(seed=ctx.seed + 700 + k3, maxdata=4096, rid='plus', frag='whole', tick=tick,
+                        ops=[dict(api='streaming_shell', decode=False, cmd='logcat', chunks=[b'l1;'.hex(), b'l2;'.hex(), b'l3;'.hex()], take=1, hold='log', read_timeout_s=rt),
+                             dict(api='pull', path='/slow', size=size, data_sizes=[4000] * 200, cuts='whole', dest='bytesio', cb=cb, read_timeout_s=rt),
+                             dict(api='resume', gen='log')])
+            for mode in ('sync', 'async'):
+                runs.append((mode, spec) + run_with_inert(spec, mode))
     judge(ctx, runs, 'offsets, random sizes/records/cuts/destinations/callbacks')
     ctx.assumptions += ['a model header byte stands for 4 real bytes and a model body byte for 5 (the reader is position-agnostic); all 7 intra-header offsets are covered by the single-cut family',
                         'with a progress callback pull() first issues stat() on another stream: CallbackInert compares the RECV stream and the bytes written']
